@@ -540,3 +540,20 @@ def verify_network(ctx):
         ctx.require(kw.get('network') == 'network', q, 'the verification key is built with network=%s: its address is not the one of the network the caller named' % kw.get('network', 'the default (bitcoin)'), calls[0],
                     'a testnet / litecoin BIP38 key imported through HDKey or a wallet is refused with the right passphrase; a bitcoin key imported with network=litecoin is accepted')
         ctx.require(kw.get('compressed') == 'compressed', q, 'the verification key is built with compressed=%s, not the flag decoded from the key' % kw.get('compressed'), calls[0])
+
+
+@PROP.obligation('C15.empty-passphrase', canaries=[
+    mut.replace_stmt('keys', 'bip38_decrypt', "if isinstance(password, str):", "if not password:\n    raise BKeyError('please provide a password')\nif isinstance(password, str):\n    password = unicodedata.normalize('NFC', password)", 'decryption refuses the empty passphrase'),
+    mut.replace_expr('keys', 'Key.encrypt', 'bip38_encrypt(self.private_hex, self.address(), password, flagbyte)', "bip38_encrypt(self.private_hex, self.address(), password or 'bitcoinlib', flagbyte)", 'empty passphrase replaced by a default on encryption'),
+])
+def empty_passphrase(ctx):
+    """"Any passphrase" includes the empty one, which is also the default of Key(..., password=''): along the BIP38 paths (Key / HDKey
+    constructors -> _bip38_decrypt -> bip38_decrypt, Key.encrypt -> bip38_encrypt, bip38_intermediate_password) the passphrase is only
+    type-tested, normalised, encoded and handed on. Nothing tests its truthiness or length or compares it, so no passphrase is refused
+    or replaced on one side only."""
+    from .common_opaque import opaque_parameter as run
+    n = run(ctx, [('keys:bip38_decrypt', 'password'), ('keys:bip38_encrypt', 'password'), ('keys:bip38_intermediate_password', 'passphrase'),
+                  ('keys:Key.__init__', 'password'), ('keys:Key._bip38_decrypt', 'password'), ('keys:Key.encrypt', 'password'),
+                  ('keys:HDKey.__init__', 'password'), ('keys:HDKey._bip38_decrypt', 'password')],
+            'a key encrypted with the empty passphrase (accepted by encrypt) cannot be decrypted with the same passphrase, or is encrypted under another one')
+    ctx.floor(n, 12, 'reads of the passphrase')
